@@ -28,6 +28,21 @@
 //! * `codes`    — every record type number 0..=65535 that is a data type,
 //!   through the RFC 3597 generic form; every class number; every SVCB
 //!   parameter key number (quick: a stated subset); TTL digit boundaries.
+//! * `readers`  — every compact value x 3 envelopes x 3 kinds x origin x the
+//!   11 ways of constructing / configuring / driving the reader
+//!   (`From<&[u8]>`, `From<&str>`, `load`, `new`+`reserve`+
+//!   `extend_from_slice` in chunks, `default`+`BufMut::put_slice`,
+//!   `with_capacity`, `allow_invalid`, `set_origin`, `set_default_class`
+//!   same / other+allow_invalid, the `Iterator` interface); and the same
+//!   record over the `Bytes` octets type must be written as the same text.
+//! * `pieces`   — the field-level presentation writers/readers the record
+//!   formatter does not use: `CharStr::display_unquoted` inside
+//!   hand-assembled TXT / HINFO / NAPTR lines read by the zone-file reader;
+//!   `CharStr: FromStr` over `Display` and the unquoted form; `OwnedLabel:
+//!   FromStr` / `from_chars` / `Display` over `Label: Display`; `FromStr` of
+//!   the nine single-name record data types over their zone-file form (all
+//!   over the same payload menu, exact octets expected); TXT values built
+//!   with `TxtBuilder::new_bytes` + `append_u8` at the 255-octet boundaries.
 //!
 //! Oracle (independent of the library's own helpers): exactly one entry, a
 //! record, whose owner octets, class, TTL and type are the original ones and
@@ -106,23 +121,111 @@ enum Second {
     Err(String),
 }
 
-fn read_back(bytes: &[u8], orig: &ZRd) -> (First, Option<Second>) {
-    let mut z = Zonefile::from(bytes);
-    let first = match z.next_entry() {
-        Ok(Some(Entry::Record(r))) => {
-            let mut owner = Vec::new();
-            let _ = r.owner().compose(&mut owner);
-            let mut wire = Vec::new();
-            let wire = r.data().compose_rdata(&mut wire).ok().map(|_| wire);
-            First::Record(Got {
-                owner,
-                class: r.class().to_int(),
-                ttl: r.ttl().as_secs(),
-                rtype: r.data().rtype().to_int(),
-                eq: r.data() == orig && orig == r.data(),
-                wire,
-            })
+/// The ways of constructing / configuring / driving the reader. Variant 0
+/// is the plain one used by all sweeps; the `readers` sweep runs all.
+const READERS: [&str; 11] = [
+    "from-slice",
+    "from-str",
+    "load",
+    "new+reserve+extend_from_slice(7-octet chunks)",
+    "default+BufMut::put_slice(5-octet chunks)",
+    "with_capacity(0)+extend_from_slice",
+    "allow_invalid",
+    "set_origin",
+    "set_default_class(same)",
+    "allow_invalid+set_default_class(other)",
+    "Iterator::next",
+];
+
+fn make_reader(variant: usize, bytes: &[u8], rec: &Rec) -> Zonefile {
+    use bytes::BufMut;
+    match variant {
+        1 => Zonefile::from(std::str::from_utf8(bytes).expect("formatter output is a String")),
+        2 => {
+            let mut rd = bytes;
+            Zonefile::load(&mut rd).expect("reading from a slice cannot fail")
         }
+        3 => {
+            let mut z = Zonefile::new();
+            for c in bytes.chunks(7) {
+                z.reserve(c.len());
+                z.extend_from_slice(c);
+            }
+            z
+        }
+        4 => {
+            let mut z = Zonefile::default();
+            for c in bytes.chunks(5) {
+                if z.remaining_mut() >= c.len() {
+                    z.put_slice(c);
+                }
+            }
+            z
+        }
+        5 => {
+            let mut z = Zonefile::with_capacity(0);
+            z.extend_from_slice(bytes);
+            z
+        }
+        6 => Zonefile::from(bytes).allow_invalid(),
+        7 => {
+            let mut z = Zonefile::from(bytes);
+            z.set_origin(Name::<bytes::Bytes>::from_octets(bytes::Bytes::from_static(b"\x01o\x07example\x00")).expect("origin"));
+            z
+        }
+        8 => {
+            let mut z = Zonefile::from(bytes);
+            z.set_default_class(rec.class());
+            z
+        }
+        9 => {
+            let mut z = Zonefile::from(bytes).allow_invalid();
+            z.set_default_class(if rec.class() == Class::IN { Class::CH } else { Class::IN });
+            z
+        }
+        _ => Zonefile::from(bytes),
+    }
+}
+
+fn summarize(r: &domain::zonefile::inplace::ScannedRecord, orig: &ZRd) -> Got {
+    let mut owner = Vec::new();
+    let _ = r.owner().compose(&mut owner);
+    let mut wire = Vec::new();
+    let wire = r.data().compose_rdata(&mut wire).ok().map(|_| wire);
+    Got {
+        owner,
+        class: r.class().to_int(),
+        ttl: r.ttl().as_secs(),
+        rtype: r.data().rtype().to_int(),
+        eq: r.data() == orig && orig == r.data(),
+        wire,
+    }
+}
+
+fn read_back(variant: usize, bytes: &[u8], rec: &Rec) -> (First, Option<Second>) {
+    let orig = rec.data();
+    let mut z = make_reader(variant, bytes, rec);
+    if variant == 10 {
+        // the iterator interface: at most three items are looked at
+        let mut it = z.by_ref().take(3);
+        let first = match it.next() {
+            Some(Ok(Entry::Record(r))) => First::Record(summarize(&r, orig)),
+            Some(Ok(Entry::Include { .. })) => First::Include,
+            None => First::Eof,
+            Some(Err(e)) => First::Err(e.to_string()),
+        };
+        if matches!(first, First::Err(_) | First::Eof) {
+            return (first, None);
+        }
+        let second = match it.next() {
+            None => Second::Eof,
+            Some(Ok(_)) => Second::Entry,
+            Some(Err(e)) => Second::Err(e.to_string()),
+        };
+        return (first, Some(second));
+    }
+    let first = match z.next_entry() {
+        Ok(Some(Entry::Record(r))) => First::Record(summarize(&r, orig)),
         Ok(Some(Entry::Include { .. })) => First::Include,
         Ok(None) => First::Eof,
         Err(e) => First::Err(e.to_string()),
@@ -184,17 +287,26 @@ fn first_diff(a: &[u8], b: &[u8]) -> String {
 }
 
 fn eval(rec: &Rec, refwire: &[u8], kind: usize, origin: bool) -> Eval {
-    let text = match guard(|| format_record(rec, kind)) {
-        Ok(Ok(t)) => t,
-        Ok(Err(())) => {
-            return Eval { text: None, fail: Some(("writer-error", String::new(), "the formatter returned fmt::Error".into())) }
-        }
-        Err(p) => {
-            return Eval {
-                text: None,
-                fail: Some(("writer-panic", blank_digits(&panic_class(&p)), format!("the formatter panicked: {p}"))),
+    eval_ex(rec, refwire, kind, origin, 0, None)
+}
+
+/// `reader`: index into `READERS`; `text`: record text assembled by the
+/// harness from the library's piece writers instead of the record formatter.
+fn eval_ex(rec: &Rec, refwire: &[u8], kind: usize, origin: bool, reader: usize, text: Option<&str>) -> Eval {
+    let text = match text {
+        Some(t) => t.to_string(),
+        None => match guard(|| format_record(rec, kind)) {
+            Ok(Ok(t)) => t,
+            Ok(Err(())) => {
+                return Eval { text: None, fail: Some(("writer-error", String::new(), "the formatter returned fmt::Error".into())) }
             }
-        }
+            Err(p) => {
+                return Eval {
+                    text: None,
+                    fail: Some(("writer-panic", blank_digits(&panic_class(&p)), format!("the formatter panicked: {p}"))),
+                }
+            }
+        },
     };
     let mut bytes = Vec::with_capacity(text.len() + 24);
     if origin {
@@ -202,7 +314,7 @@ fn eval(rec: &Rec, refwire: &[u8], kind: usize, origin: bool) -> Eval {
     }
     bytes.extend_from_slice(text.as_bytes());
     bytes.push(b'\n');
-    let fail = match guard(|| read_back(&bytes, rec.data())) {
+    let fail = match guard(|| read_back(reader, &bytes, rec)) {
         Err(p) => Some(("reader-panic", blank_digits(&panic_class(&p)), format!("the reader panicked: {p}"))),
         Ok((first, second)) => judge(rec, refwire, first, second),
     };
@@ -283,9 +395,14 @@ fn svcb_params(wire: &[u8]) -> Option<Vec<(u16, &[u8])>> {
 /// The known root cause that explains a failing case, decided from the
 /// probe's focus and from the reference RDATA alone (never from the
 /// library's output). `None`: not one of the known causes.
-fn root_cause(focus: &Focus, is_name: bool, rec: &Rec, wire: &[u8]) -> Option<String> {
+fn root_cause(focus: &Focus, is_name: bool, rec: &Rec, wire: &[u8], coarse: &str) -> Option<String> {
     if is_name && LABEL_SPECIAL.contains(&focus.oct.as_str()) {
         return Some(format!("name-field|label-writer-does-not-escape|{}", focus.oct));
+    }
+    // the record-data causes below cannot explain a wrong owner, class, TTL
+    // or type
+    if coarse.starts_with("wrong-") {
+        return None;
     }
     match rec.data().rtype().to_int() {
         64 | 65 => {
@@ -442,12 +559,18 @@ impl Collector {
 
     /// Evaluate one case and file the result. Returns true if it passed.
     fn case(&self, lc: &mut Local, m: &CaseMeta, rec: &Rec, refwire: &[u8], kind: usize, origin: bool) -> bool {
-        let ev = eval(rec, refwire, kind, origin);
+        self.case_ex(lc, m, rec, refwire, kind, origin, 0, None)
+    }
+
+    #[allow(clippy::too_many_arguments)]
+    fn case_ex(&self, lc: &mut Local, m: &CaseMeta, rec: &Rec, refwire: &[u8], kind: usize, origin: bool, reader: usize, text: Option<&str>) -> bool {
+        let text_override = text.is_some();
+        let ev = if reader == 0 && text.is_none() { eval(rec, refwire, kind, origin) } else { eval_ex(rec, refwire, kind, origin, reader, text) };
         lc.evals += 1;
         let kname = KINDS[kind];
         if let Some(t) = &ev.text {
             let mut h = fnv(t.as_bytes());
-            h ^= (kind as u64 + 1).wrapping_mul(0x9E37_79B9_7F4A_7C15) ^ ((origin as u64) << 63);
+            h ^= (kind as u64 + 1).wrapping_mul(0x9E37_79B9_7F4A_7C15) ^ ((origin as u64) << 63) ^ ((reader as u64) << 48) ^ ((text.is_some() as u64) << 47);
             if ev.fail.is_none() {
                 lc.distinct.push(h);
             }
@@ -475,7 +598,7 @@ impl Collector {
                 // has no field/octet class and uses the outcome detail
                 // instead; panics are always set apart.
                 let is_name = m.is_name || (m.focus.ty == "owner" && m.focus.field == "label");
-                let cause = if kind < GATED_KINDS && !coarse.ends_with("panic") { root_cause(m.focus, is_name, rec, refwire) } else { None };
+                let cause = if kind < GATED_KINDS && !coarse.ends_with("panic") { root_cause(m.focus, is_name, rec, refwire, coarse) } else { None };
                 let mut sig = if let Some(c) = cause {
                     format!("C06|{c}")
                 } else if m.sig_detail {
@@ -530,7 +653,9 @@ impl Collector {
                         "rdata": hex(refwire),
                         "kind": kind,
                         "origin": origin,
-                        "text": if text.len() <= 4096 { J::String(text.clone()) } else { J::Null },
+                        "reader": reader,
+                        "harness_text": text_override,
+                        "text": if text.len() <= 4096 || text_override { J::String(text.clone()) } else { J::Null },
                     });
                     let count = g.get(&sig).map(|f| f.count).unwrap_or(0);
                     g.insert(sig, FailClass { count: count + 1, what, replay, key });
@@ -762,6 +887,10 @@ struct FieldDef {
     field: &'static str,
     fk: FK,
     build: Box<dyn Fn(&[u8]) -> Vec<u8> + Send + Sync>,
+}
+
+fn cs_wire(b: &[u8]) -> Vec<u8> {
+    cs(b)
 }
 
 fn cs(b: &[u8]) -> Vec<u8> {
@@ -1267,6 +1396,304 @@ fn sweep_codes(col: &Collector, thorough: bool) {
     col.merge(lc);
 }
 
+/// `readers`: every way of constructing / configuring / driving the reader,
+/// and records over the `Bytes` octets type.
+fn sweep_readers(col: &Collector) {
+    use octseq::OctetsFrom;
+    let (vals, _) = rgen::values_ex(GTier::Compact);
+    let vals: Vec<(rgen::Value, ZRd)> = vals
+        .into_iter()
+        .filter_map(|v| {
+            let z: Result<ZRd, rgen::Rd> = v.data.clone().into();
+            z.ok().map(|z| (v, z))
+        })
+        .collect();
+    let envs: Vec<(Nm, Class, u32, &str)> = vec![
+        (name_of(&[b"a"]), Class::IN, 3600, "a. IN 3600"),
+        (rgen::name_specs()[3].name(), Class::CH, 0x7FFF_FFFF, "255-octet owner, CH, 2^31-1"),
+        (name_of(&[b"x\" ;()@$\\.y\x00\xff", b"z"]), Class::HS, 0, "owner with every special octet, HS, 0"),
+    ];
+    vals.par_iter().for_each(|(v, z)| {
+        let mut lc = Local::default();
+        for (owner, class, ttl, edesc) in &envs {
+            let rec = Record::new(owner.clone(), *class, Ttl::from_secs(*ttl), z.clone());
+            // the same record over Bytes
+            let zb = ZoneRecordData::<bytes::Bytes, Name<bytes::Bytes>>::try_octets_from(z.clone());
+            let ob = Name::<bytes::Bytes>::try_octets_from(owner.clone());
+            let recb = match (zb, ob) {
+                (Ok(zb), Ok(ob)) => Some(Record::new(ob, *class, Ttl::from_secs(*ttl), zb)),
+                _ => None,
+            };
+            for k in 0..GATED_KINDS {
+                let fv = Focus::new(v.mnemonic, "value", "-");
+                let note = format!("compact value {} ({edesc})", v.desc);
+                let m0 = CaseMeta { sweep: "readers-baseline", focus: &fv, sig_detail: true, is_name: false, note: &note };
+                if !col.case(&mut lc, &m0, &rec, &v.wire, k, false) {
+                    lc.add("readers:skipped-baseline-fails".into(), (READERS.len() - 1) as u64 * 2 + 1);
+                    continue;
+                }
+                for reader in 1..READERS.len() {
+                    let focus = Focus::new("reader", READERS[reader], "-");
+                    let m = CaseMeta { sweep: "readers", focus: &focus, sig_detail: false, is_name: false, note: &note };
+                    for origin in [false, true] {
+                        col.case_ex(&mut lc, &m, &rec, &v.wire, k, origin, reader, None);
+                    }
+                }
+                // octets type: the Bytes-typed record must be written as
+                // the very same text
+                lc.evals += 1;
+                let tv = guard(|| format_record(&rec, k));
+                let tb = guard(|| {
+                    recb.as_ref().map(|r| {
+                        let mut s = String::new();
+                        let w = match k {
+                            0 => write!(s, "{}", r.display_zonefile(DisplayKind::Simple)),
+                            1 => write!(s, "{}", r.display_zonefile(DisplayKind::Tabbed)),
+                            _ => write!(s, "{}", r.display_zonefile(DisplayKind::Multiline)),
+                        };
+                        w.map(|_| s).map_err(|_| ())
+                    })
+                });
+                let same = match (&tv, &tb) {
+                    (Ok(Ok(a)), Ok(Some(Ok(b)))) => a == b,
+                    _ => false,
+                };
+                if same {
+                    lc.inc(format!("readers-octets-type:{}:pass", KINDS[k]));
+                } else {
+                    lc.inc(format!("readers-octets-type:{}:fail", KINDS[k]));
+                    let sig = format!("C06|octets-type|Bytes-record-written-differently|{}|{}", v.mnemonic, KINDS[k]);
+                    let what = format!("{note}: Vec-typed record writes {tv:?}, Bytes-typed record writes {tb:?}");
+                    let mut g = col.fails.lock().unwrap();
+                    let e = g.entry(sig).or_insert(FailClass { count: 0, what: what.clone(), replay: json!({"sweep": "readers-octets-type", "owner": hex(owner.as_slice()), "class": class.to_int(), "ttl": ttl, "rtype": v.rtype, "rdata": hex(&v.wire), "kind": k, "origin": false}), key: (what.len(), what) });
+                    e.count += 1;
+                }
+            }
+        }
+        col.merge(lc);
+    });
+}
+
+/// File a failure of a piece-level check (no record involved).
+fn piece_fail(col: &Collector, lc: &mut Local, sig: String, what: String, case: J) {
+    lc.inc("pieces:piece-check:fail".into());
+    let what: String = if what.chars().count() > 420 { what.chars().take(200).chain(" ... ".chars()).chain(what.chars().skip(what.chars().count() - 200)).collect() } else { what };
+    let mut g = col.fails.lock().unwrap();
+    let key = (what.len(), what.clone());
+    match g.get_mut(&sig) {
+        Some(fc) => {
+            fc.count += 1;
+            if key < fc.key {
+                fc.what = what;
+                fc.replay = case;
+                fc.key = key;
+            }
+        }
+        None => {
+            g.insert(sig, FailClass { count: 1, what, replay: case, key });
+        }
+    }
+}
+
+/// `pieces`: the presentation writers and readers of single fields that the
+/// record formatter does not use itself: the unquoted character-string form
+/// (inside hand-assembled TXT / HINFO / NAPTR lines read by the zone-file
+/// reader), `CharStr: FromStr` over `Display` and the unquoted form,
+/// `OwnedLabel: FromStr` / `from_chars` over `Label: Display`, `FromStr` of
+/// the single-name record data types over their zone-file form, and TXT
+/// values made with the octet-wise builder over `BytesMut`.
+fn sweep_pieces(col: &Collector, thorough: bool) {
+    use domain::base::charstr::CharStr;
+    use domain::base::name::{Label, OwnedLabel};
+    use std::str::FromStr;
+    let owner = name_of(&[b"a"]);
+    let pl = payloads(255, false, thorough);
+    let chunks: Vec<&[Payload]> = pl.chunks(64).collect();
+    chunks.par_iter().for_each(|chunk| {
+        let mut lc = Local::default();
+        for p in chunk.iter() {
+            let cs = match CharStr::from_octets(p.bytes.clone()) {
+                Ok(c) => c,
+                Err(_) => continue,
+            };
+            let unq = cs.display_unquoted().to_string();
+            let plain = cs.to_string();
+            // (1) FromStr over both text forms: exact octets
+            for (form, text) in [("Display", &plain), ("display_unquoted", &unq)] {
+                lc.evals += 1;
+                let r = guard(|| CharStr::<Vec<u8>>::from_str(text).map(|c| c.as_slice().to_vec()).map_err(|e| e.to_string()));
+                let ok = matches!(&r, Ok(Ok(b)) if *b == p.bytes);
+                if ok {
+                    lc.inc(format!("pieces:charstr-from_str({form}):pass"));
+                    lc.distinct.push(fnv(text.as_bytes()) ^ 0x51);
+                } else {
+                    piece_fail(
+                        col,
+                        &mut lc,
+                        format!("C06|CharStr|from_str({form})|{}", p.oct),
+                        format!("CharStr {} written by {form} as {text:?} is read by CharStr::from_str as {r:?}", hex(&p.bytes)),
+                        json!({"sweep": "pieces", "piece": "charstr-from_str", "form": form, "octets": hex(&p.bytes), "text": text}),
+                    );
+                }
+            }
+            // (2) the unquoted form inside records read by the zone-file
+            // reader (an empty string has no unquoted form)
+            if p.bytes.is_empty() {
+                lc.inc("pieces:unquoted:skipped-empty-string".into());
+                continue;
+            }
+            let q = |b: &[u8]| CharStr::from_octets(b.to_vec()).expect("short").display_quoted().to_string();
+            let lines: Vec<(&str, u16, Vec<u8>, String)> = vec![
+                ("TXT", 16, cs_wire(&p.bytes), format!("a. 3600 IN TXT {unq}")),
+                ("TXT", 16, cat(&[&cs_wire(b"a"), &cs_wire(&p.bytes), &cs_wire(b"b c")]), format!("a. 3600 IN TXT a {unq} {}", q(b"b c"))),
+                ("HINFO", 13, cat(&[&cs_wire(&p.bytes), &cs_wire(b"os")]), format!("a. 3600 IN HINFO {unq} os")),
+                ("HINFO", 13, cat(&[&cs_wire(b"cpu"), &cs_wire(&p.bytes)]), format!("a. 3600 IN HINFO {} {unq}", q(b"cpu"))),
+                ("NAPTR", 35, cat(&[&[0, 1, 0, 2], &cs_wire(&p.bytes), &cs_wire(&p.bytes), &cs_wire(&p.bytes), &[0]]), format!("a. 3600 IN NAPTR 1 2 {unq} {unq} {unq} .")),
+            ];
+            for (ty, rtype, wire, text) in lines {
+                let z = match value_from_wire(rtype, &wire) {
+                    Ok(z) => z,
+                    Err(_) => continue,
+                };
+                let rec = Record::new(owner.clone(), Class::IN, Ttl::from_secs(3600), z);
+                let oct = attribute(col, ty, "unquoted-string", p, 0);
+                let focus = Focus::new(ty, "unquoted-string", &oct);
+                let note = format!("{ty} with string {} ({}, {}) written by CharStr::display_unquoted into a hand-assembled line", hex(&p.bytes), p.oct, p.pos);
+                let m = CaseMeta { sweep: "pieces-unquoted", focus: &focus, sig_detail: false, is_name: false, note: &note };
+                for origin in [false, true] {
+                    let ok = col.case_ex(&mut lc, &m, &rec, &wire, 0, origin, 0, Some(&text));
+                    if !ok && p.single {
+                        col.failing_singles.lock().unwrap().insert((ty.to_string(), "unquoted-string".to_string(), p.oct.clone(), 0));
+                    }
+                }
+            }
+        }
+        col.merge(lc);
+    });
+    // labels and single-name record data
+    let lp = payloads(63, true, thorough);
+    let lchunks: Vec<&[Payload]> = lp.chunks(64).collect();
+    lchunks.par_iter().for_each(|chunk| {
+        let mut lc = Local::default();
+        for p in chunk.iter() {
+            let label = match Label::from_slice(&p.bytes) {
+                Ok(l) => l,
+                Err(_) => continue,
+            };
+            let text = label.to_string();
+            for (entry, r) in [
+                ("from_str", guard(|| OwnedLabel::from_str(&text).map(|l| l.as_label().as_slice().to_vec()).map_err(|e| e.to_string()))),
+                ("from_chars", guard(|| OwnedLabel::from_chars(text.chars()).map(|l| l.as_label().as_slice().to_vec()).map_err(|e| e.to_string()))),
+            ] {
+                lc.evals += 1;
+                if matches!(&r, Ok(Ok(b)) if *b == p.bytes) {
+                    lc.inc(format!("pieces:label-{entry}:pass"));
+                    lc.distinct.push(fnv(text.as_bytes()) ^ 0x71);
+                } else {
+                    piece_fail(
+                        col,
+                        &mut lc,
+                        format!("C06|OwnedLabel|{entry}(Display)|{}", p.oct),
+                        format!("label {} written as {text:?} is read by OwnedLabel::{entry} as {r:?}", hex(&p.bytes)),
+                        json!({"sweep": "pieces", "piece": "label", "entry": entry, "octets": hex(&p.bytes), "text": text}),
+                    );
+                }
+            }
+            // OwnedLabel's own Display must write what Label's does
+            lc.evals += 1;
+            let ot = OwnedLabel::from_label(label).to_string();
+            if ot == text {
+                lc.inc("pieces:ownedlabel-display:pass".into());
+            } else {
+                piece_fail(col, &mut lc, format!("C06|OwnedLabel|Display-differs-from-Label|{}", p.oct), format!("label {}: Label writes {text:?}, OwnedLabel writes {ot:?}", hex(&p.bytes)), json!({"sweep": "pieces", "piece": "ownedlabel-display", "octets": hex(&p.bytes)}));
+            }
+            // FromStr of the single-name record data types
+            macro_rules! name_type {
+                ($ty:ident, $mn:expr) => {{
+                    for labels in [vec![p.bytes.clone(), b"z".to_vec()], vec![p.bytes.clone()], vec![b"z".to_vec(), p.bytes.clone()]] {
+                        let w = to_wire(&labels);
+                        let n: Nm = match Name::from_octets(w.clone()) {
+                            Ok(n) => n,
+                            Err(_) => continue,
+                        };
+                        let d = domain::rdata::$ty::new(n);
+                        let text = d.display_zonefile(DisplayKind::Simple).to_string();
+                        lc.evals += 1;
+                        let r = guard(|| domain::rdata::$ty::<Nm>::from_str(&text).map(|d| { let mut v = Vec::new(); let _ = d.compose_rdata(&mut v); v }).map_err(|e| e.to_string()));
+                        if matches!(&r, Ok(Ok(b)) if *b == w) {
+                            lc.inc(format!("pieces:{}-from_str:pass", $mn));
+                            lc.distinct.push(fnv(text.as_bytes()) ^ fnv($mn.as_bytes()));
+                        } else {
+                            piece_fail(
+                                col,
+                                &mut lc,
+                                format!("C06|{}|from_str(zonefile-form)|{}", $mn, p.oct),
+                                format!("{} {} written as {text:?} is read by FromStr as {r:?}", $mn, hex(&w)),
+                                json!({"sweep": "pieces", "piece": "name-type-from_str", "type": $mn, "name": hex(&w), "text": text}),
+                            );
+                        }
+                    }
+                }};
+            }
+            name_type!(Ns, "NS");
+            name_type!(Md, "MD");
+            name_type!(Mf, "MF");
+            name_type!(Cname, "CNAME");
+            name_type!(Mb, "MB");
+            name_type!(Mg, "MG");
+            name_type!(Mr, "MR");
+            name_type!(Ptr, "PTR");
+            name_type!(Dname, "DNAME");
+        }
+        col.merge(lc);
+    });
+    // TXT built octet by octet over BytesMut
+    let mut lc = Local::default();
+    let mut lens: Vec<usize> = vec![0, 1, 254, 255, 256, 509, 510, 511, 765, 766];
+    if thorough {
+        lens.extend([2, 3, 253, 257, 1020, 1021, 4000]);
+    }
+    for n in lens {
+        for (pname, data) in [("fill", rgen::fill(n, 9)), ("quote", vec![b'"'; n]), ("blank", vec![b' '; n])] {
+            use octseq::OctetsFrom;
+            let built = guard(|| -> Result<ZRd, String> {
+                let mut b = domain::rdata::rfc1035::TxtBuilder::new_bytes();
+                for ch in &data {
+                    b.append_u8(*ch).map_err(|e| e.to_string())?;
+                }
+                let t = b.finish().map_err(|e| e.to_string())?;
+                let t = domain::rdata::Txt::<Vec<u8>>::try_octets_from(t).map_err(|_| "octets".to_string())?;
+                Ok(ZRd::Txt(t))
+            });
+            let z = match built {
+                Ok(Ok(z)) => z,
+                other => {
+                    lc.inc(format!("pieces:txt-builder:not-built({:?})", other.err()));
+                    continue;
+                }
+            };
+            // reference: 255-octet chunks; no data at all is one empty string
+            let mut wire = Vec::new();
+            if data.is_empty() {
+                wire.push(0);
+            }
+            for c in data.chunks(255) {
+                wire.extend_from_slice(&cs_wire(c));
+            }
+            let focus = Focus::new("TXT", "append_u8-over-BytesMut", "-");
+            let note = format!("TXT of {n} octets ({pname}) built with TxtBuilder::new_bytes + append_u8");
+            let m = CaseMeta { sweep: "pieces-txt-builder", focus: &focus, sig_detail: false, is_name: false, note: &note };
+            let rec = Record::new(owner.clone(), Class::IN, Ttl::from_secs(3600), z);
+            for k in KIND_RANGE {
+                for origin in [false, true] {
+                    col.case(&mut lc, &m, &rec, &wire, k, origin);
+                }
+            }
+        }
+    }
+    col.merge(lc);
+}
+
 // ===================================================================
 // Replay
 // ===================================================================
@@ -1296,9 +1723,11 @@ fn replay(ctx: &Ctx, path: &str) -> ! {
         }
     };
     let rec = Record::new(owner, class, Ttl::from_secs(ttl), z);
-    let ev = eval(&rec, &wire, kind.min(3), origin);
+    let reader = (c["reader"].as_u64().unwrap_or(0) as usize).min(READERS.len() - 1);
+    let harness_text = if c["harness_text"].as_bool().unwrap_or(false) { c["text"].as_str().map(|s| s.to_string()) } else { None };
+    let ev = eval_ex(&rec, &wire, kind.min(3), origin, reader, harness_text.as_deref());
     println!("replay {path}");
-    println!("  kind: {}, origin: {}", KINDS[kind.min(3)], origin);
+    println!("  kind: {}, origin: {}, reader: {}{}", KINDS[kind.min(3)], origin, READERS[reader], if harness_text.is_some() { ", text assembled by the harness from piece writers" } else { "" });
     match &ev.text {
         Some(t) => println!("  text written: {:?}", t.chars().take(600).collect::<String>()),
         None => println!("  no text written"),
@@ -1335,6 +1764,8 @@ fn main() {
     let t_fields = t0.elapsed().as_secs_f64();
     sweep_binary(&col, thorough);
     sweep_codes(&col, thorough);
+    sweep_readers(&col);
+    sweep_pieces(&col, thorough);
     let t_binary = t0.elapsed().as_secs_f64();
     sweep_envelope(&col, thorough);
     let t_env = t0.elapsed().as_secs_f64();
@@ -1370,9 +1801,9 @@ fn main() {
             "rule": "a case is one (record, display kind, origin) triple; non-trivial = the text was written, read back as exactly one record equal in owner/class/TTL/type/data (== and wire octets) followed by EOF, counted once per distinct (text, kind, origin)",
             "exhaustive": true,
             "bound": if thorough {
-                "rgen Thorough menus x 3 kinds x 2 envelopes; compact values x owner menu (incl. all hostile strings <=3) x 4 classes x 4 TTLs x kinds x origin; every textual field x all single octets + all hostile strings <=3; binary lengths 0..70,254..257,1000"
+                "rgen Thorough menus x 3 kinds x 2 envelopes; compact values x owner menu (incl. all hostile strings <=3) x 4 classes x 4 TTLs x kinds x origin; every textual field x all single octets + all hostile strings <=3; binary lengths 0..70,254..257,1000; all rtypes/classes/SVCB keys; 11 reader entry points x compact values x 3 envelopes; field-level writers/readers (unquoted strings, FromStr of CharStr/OwnedLabel/name types) x the payload menu incl. hostile strings <=3"
             } else {
-                "rgen Quick menus x 3 kinds x 2 envelopes; compact values x owner menu x 4 classes x 4 TTLs x kinds x origin; every textual field x all single octets, hostile octets at 6 positions, named combinations; binary lengths 0..8,11,12,20,32,33"
+                "rgen Quick menus x 3 kinds x 2 envelopes; compact values x owner menu x 4 classes x 4 TTLs x kinds x origin; every textual field x all single octets, hostile octets at 6 positions, named combinations; binary lengths 0..8,11,12,20,32,33; all rtypes/classes, a subset of SVCB keys; 11 reader entry points x compact values x 3 envelopes; field-level writers/readers (unquoted strings, FromStr of CharStr/OwnedLabel/name types) x the payload menu"
             },
             "gated_cases_passed": sum(":pass", true),
             "gated_cases_failed": sum(":fail", true),
@@ -1393,6 +1824,7 @@ fn main() {
             "large values (rgen quick/thorough menus, up to 65535 octets of RDATA) are crossed with two envelopes only; the full owner x class x TTL product uses rgen's compact values",
             "values of the fields/binary sweeps are built from harness-written reference RDATA through the library's parser (checked to compose back to the reference); rgen values are built through the constructors",
             "record classes ANY and NONE (query/update-only) and TTLs above 2^31-1 (RFC 2181 section 8) are not part of the envelope menu",
+            "an empty character string has no unquoted form and is skipped there; IterScanner (a token-level scanner, not the zone-file reader) and the string-level Base16/32/64 codecs (property C18) are not driven by this harness",
         ],
     );
 }
